@@ -26,7 +26,7 @@ na = [{"property_id": pid, "reason": NOT_YET.get(pid, "no check registered yet i
       for pid in ids if pid not in CHECKS]
 m = {
     "version": 1,
-    "setup_cmd": "cd lean/PPVerif && lake build",
+    "setup_cmd": "./setup.sh",
     "hooks": {
         "guard": "E2NIEE_PANDAPOWER_VERIF",
         "enable": "no source hooks: the harness observes the real code in-process (sys.settrace fault injection, wrappers); ./check exports E2NIEE_PANDAPOWER_VERIF=1 for uniformity",
